@@ -33,6 +33,7 @@ static int run_one(const std::string &text)
         Line("hdr").str("mode", sc.mode).emit();
         int rc;
         if (sc.mode == "dataflow") rc = run_dataflow(sc);
+        else if (sc.mode == "concurrent") rc = run_concurrent(sc);
         else if (sc.mode == "collections") rc = run_collections(sc);
         else if (sc.mode == "higher_order") rc = run_higher_order(sc);
         else if (sc.mode == "threads") rc = run_threads(sc);
@@ -88,6 +89,16 @@ int main(int argc, char **argv)
     while (std::getline(std::cin, line))
     {
         if (line != "END") { text += line; text += "\n"; continue; }
+        if (text.rfind("NOFORK\n", 0) == 0)
+        {   // run in the server process itself: later scenarios see this one as process history (C07)
+            int rc = run_one(text.substr(7));
+            reset_all_tables();
+            Line l("exit");
+            l.i("status", rc).i("signal", 0).emit();
+            log_flush();
+            text.clear();
+            continue;
+        }
         pid_t pid = fork();
         if (pid == 0)
         {
